@@ -6,11 +6,13 @@ pub mod c08;
 pub mod c13;
 pub mod c14;
 pub mod buschecks;
+pub mod c05;
 pub mod c06;
 pub mod c09;
 pub mod c11;
 pub mod c12;
 pub mod c15;
+pub mod c19;
 
 /// One property check. Cases are numbered globally (0..total); case `i` derives all its random
 /// choices from (seed, i), so a violation replays from those two numbers alone.
@@ -39,7 +41,7 @@ pub trait Check: Sync {
 }
 
 pub fn all() -> Vec<Box<dyn Check>> {
-    vec![Box::new(c01::C01), Box::new(c07::C07), Box::new(c08::C08), Box::new(c13::C13), Box::new(c14::C14), Box::new(buschecks::C02), Box::new(buschecks::C03), Box::new(buschecks::C04), Box::new(buschecks::C10), Box::new(buschecks::C05B), Box::new(c09::C09), Box::new(c11::C11), Box::new(c12::C12), Box::new(c06::C06), Box::new(c15::C15)]
+    vec![Box::new(c01::C01), Box::new(c07::C07), Box::new(c08::C08), Box::new(c13::C13), Box::new(c14::C14), Box::new(buschecks::C02), Box::new(buschecks::C03), Box::new(buschecks::C04), Box::new(buschecks::C10), Box::new(c05::C05), Box::new(c09::C09), Box::new(c11::C11), Box::new(c12::C12), Box::new(c06::C06), Box::new(c15::C15), Box::new(c19::C19)]
 }
 
 pub fn find(id: &str) -> Option<Box<dyn Check>> {
